@@ -262,12 +262,14 @@ type offerResult struct {
 
 func offer(n *node, b *lib.Bundle) offerResult {
 	var r offerResult
-	finished := lib.WithDeadline(60*time.Second, func() {
+	// generous: an offer costs milliseconds, but the machine may be heavily shared; a real hang is
+	// still reported (and the check driver's own timeout is the backstop)
+	finished := lib.WithDeadline(15*time.Minute, func() {
 		r.err, r.panicked, r.stack = lib.Try(func() error { return lib.StoreOn(n.bc, b) })
 	})
 	if !finished {
 		r.hung = true
-		r.err = fmt.Errorf("hang: no answer in 60s")
+		r.err = fmt.Errorf("hang: no answer in 15 minutes")
 	}
 	return r
 }
@@ -630,12 +632,15 @@ func buildChain(f lib.Flags, task chainTask) (*lib.ChainGen, error) {
 	start := task.Chain % len(opt.Versions)
 	for i := 0; i < n; i++ {
 		spec := &lib.BlockSpec{}
-		vi := start + i/2
+		vi := start + i/3
 		if vi >= len(opt.Versions) {
 			vi = len(opt.Versions) - 1
 		}
 		spec.Version = opt.Versions[vi]
-		if i == (n-1)/2 {
+		if spec.Version == "0.13.2" && i%3 == 1 {
+			spec.Version = "0.13.3" // same hash format as 0.13.2
+		}
+		if i == (n-1)/2 || (f.Thorough() && i == 1) {
 			// the middle block (a tamper position) carries one transaction of every kind and version
 			seen := map[string]bool{}
 			for draws := 0; draws < 400 && len(seen) < 11; draws++ {
@@ -684,6 +689,11 @@ func runTask(f lib.Flags, res *lib.Result, task chainTask, only *replay) {
 		fg = nil
 	}
 	n := openNode(g, task.DstNew, memory.New())
+	var ac *acceptChecker
+	if only == nil {
+		ac = newAcceptChecker(f, g)
+		defer ac.close()
+	}
 	backend := "legacy"
 	if task.DstNew {
 		backend = "new"
@@ -730,7 +740,12 @@ func runTask(f lib.Flags, res *lib.Result, task chainTask, only *replay) {
 				posName = "last"
 			}
 			format := formatOf(valid.Block.ProtocolVersion)
-			for _, tc := range cases {
+			var headHash *felt.Felt
+			var headNumber uint64
+			if pos > 0 {
+				headNumber, headHash = uint64(pos-1), g.Bundles[pos-1].Block.Hash
+			}
+			for ci, tc := range cases {
 				if only != nil && only.Case != tc.Name+"|"+tc.Detail {
 					continue
 				}
@@ -738,6 +753,12 @@ func runTask(f lib.Flags, res *lib.Result, task chainTask, only *replay) {
 				class := errClass(r.err)
 				if r.hung {
 					class = "hang"
+				}
+				// model verdict vs real verdict: every compound / re-hashed / misplaced case, a quarter of
+				// the single-field ones (all of them in the thorough tier)
+				if !strings.HasPrefix(tc.Name, "field:") || strings.HasPrefix(tc.Name, "field:.Classes") ||
+					strings.HasPrefix(tc.Name, "field:.SU.") || ci%4 == 0 || f.Thorough() {
+					ac.compare(res, tc, headNumber, headHash, class)
 				}
 				res.Case(fmt.Sprintf("%d/%v/%d/%s|%s", task.Chain, task.DstNew, pos, tc.Name, tc.Detail), true)
 				res.Hit("outcome-" + class)
